@@ -74,3 +74,27 @@ def slow_eom_any(doc: dict, params: dict) -> bool:
 
 
 MATCHERS["slow_eom_any"] = slow_eom_any
+
+
+def multi_channel_same_basis(doc: dict, params: dict) -> bool:
+    """At least two (non-DMM) channels addressing the same basis are declared."""
+    dev = doc["world"]["device"]
+    basis_of = {}
+    if dev.get("kind") == "builtin":
+        import pulser.devices as pd
+
+        d = getattr(pd, dev["name"])
+        basis_of = {cid: ch.basis for cid, ch in d.channels.items()}
+    else:
+        m = {"Rydberg": "ground-rydberg", "Raman": "digital", "Microwave": "XY"}
+        basis_of = {c["id"]: m[c["cls"]] for c in dev["channels"]}
+    seen: dict = {}
+    for rec in doc["trace"]:
+        op = rec["op"]
+        if op["op"] == "declare_channel" and rec.get("outcome", "ok") == "ok":
+            b = basis_of.get(op["channel_id"])
+            seen[b] = seen.get(b, 0) + 1
+    return any(n >= 2 for n in seen.values())
+
+
+MATCHERS["multi_channel_same_basis"] = multi_channel_same_basis
